@@ -1,11 +1,231 @@
-/- Driver for C06 (stub — not built yet) -/
+/-
+Driver for C06: replays a scripted async module through `Exec.runEvents` (the model of the repaired
+`Harness::exec` the theorems of Props/C06.lean are about, with `Exec.tokioParams`) and through the specification
+executor `Exec.idealEvents` (budgets that never bind), and compares both with what the real des simulation logged.
+
+  reject  : some task observed a simulated time different from the instant its awaited condition became true
+            (or never ran).  When the implementation's log is the one of the single-pass model `Exec.runEvents1`
+            (the code before the repairs), `tag=` names the mechanism that left the task behind:
+              F4  runtime queue budget (event_interval)      F4b LocalSet tick budget (MAX_TASKS_PER_TICK)
+              F4c deferred waker (yield_now / coop budget)    F4d local task woken by a runtime task after the tick
+            `tag=unexplained` otherwise.
+  diverge : the specification accepts the implementation's log but its global order differs from the model's, or
+            the measured budgets differ from `Exec.tokioParams`.
+-/
+import Desverif.Model.Exec
 import Driver.Common
 namespace Driver.C06
-open Driver
+open Exec Driver
+
+/-- instruction on tags (as in the script) -/
+inductive TIns | s (t : Nat) | w (k : Nat) | a (k : Nat) | y | j (t : Nat)
+  deriving DecidableEq
+
+def parseIns (tok : String) : Option (TIns × Nat) :=
+  let (body, rep) := match tok.splitOn "*" with
+    | [b, r] => (b, r.toNat?.getD 1)
+    | _ => (tok, 1)
+  let rep := min rep 100000
+  match body.toList with
+  | 'y' :: [] => some (.y, rep)
+  | c :: rest =>
+    match (String.ofList rest).toNat? with
+    | none => none
+    | some n =>
+      if c = 's' then some (.s n, rep) else if c = 'w' then some (.w n, rep)
+      else if c = 'a' then some (.a n, rep) else if c = 'j' then some (.j n, rep) else none
+  | [] => none
+
+def parseProg (toks : List String) : List TIns :=
+  toks.foldr (fun tok acc => match parseIns tok with
+    | some (i, n) => List.replicate n i ++ acc
+    | none => acc) []
+
+structure Script where
+  tasks : Array (Nat × Kind × List TIns) := #[]
+  events : Array (Nat × List TIns) := #[]
+  run : Option String := none   -- the implementation's answer
+
+def parseScript (body : List String) : Script := Id.run do
+  let mut sc : Script := {}
+  for line in body do
+    let (lhs, rhs) := splitArrow line
+    match words lhs with
+    | "task" :: tag :: kind :: prog =>
+      if let some t := tag.toNat? then
+        sc := { sc with tasks := sc.tasks.push (t, if kind = "loc" then .loc else .rt, parseProg prog) }
+    | "ev" :: tm :: prog =>
+      if let some t := tm.toNat? then
+        sc := { sc with events := sc.events.push (t, parseProg prog) }
+    | ["run"] => sc := { sc with run := some rhs }
+    | _ => pure ()
+  return sc
+
+def indexOf? (xs : List Nat) (x : Nat) : Option Nat :=
+  let i := xs.idxOf x
+  if i < xs.length then some i else none
+
+def count (p : TIns → Bool) (progs : List (List TIns)) : Nat :=
+  progs.foldl (fun n pr => n + (pr.filter p).length) 0
+
+/-- the static restrictions under which the model's conditions (single waiter, counting) describe the real
+primitives, see the header of harness/src/c06.rs; scripts outside are skipped -/
+def wellFormed (sc : Script) : Bool := Id.run do
+  let tags := sc.tasks.toList.map (·.1)
+  let tprogs := sc.tasks.toList.map (·.2.2)
+  let eprogs := sc.events.toList.map (·.2)
+  let all := tprogs ++ eprogs
+  -- unique tags
+  if tags.eraseDups.length != tags.length then return false
+  -- events strictly increasing in time, handlers only spawn / wake
+  let times := sc.events.toList.map (·.1)
+  if !(times.zip (times.drop 1)).all (fun (a, b) => a < b) then return false
+  if count (fun i => match i with | .s _ | .w _ => false | _ => true) eprogs != 0 then return false
+  for (_, kind, prog) in sc.tasks.toList do
+    for i in prog do
+      match i with
+      | .s t =>
+        -- spawn targets exist, are spawned once overall; local tasks are spawned from local context only
+        match sc.tasks.toList.find? (·.1 == t) with
+        | none => return false
+        | some (_, tk, _) => if tk == .loc && kind == .rt then return false
+      | _ => pure ()
+  for pr in all do
+    for i in pr do
+      match i with
+      | .s t =>
+        if !tags.contains t then return false
+        if count (· == .s t) all != 1 then return false
+      | .a k =>
+        -- a single waiting task per condition
+        if ((tprogs.filter (·.contains (.a k))).length) != 1 then return false
+      | .w k =>
+        if k % 3 == 2 && count (· == .w k) all > 1 then return false
+      | .j t =>
+        -- one join per task, in the program that spawned it, after the spawn
+        if count (· == .j t) all != 1 then return false
+        match pr.idxOf (.s t), pr.idxOf (.j t) with
+        | is, ij => if !(is < ij && ij < pr.length) then return false
+      | .y => pure ()
+  return true
+
+structure Compiled where
+  tags : List Nat
+  s0 : St
+  events : List (Nat × List Instr)
+
+def compile (sc : Script) : Compiled :=
+  let tags := sc.tasks.toList.map (·.1)
+  let progs := sc.tasks.toList.map (·.2.2) ++ sc.events.toList.map (·.2)
+  let cks : List Nat := (progs.foldl (fun acc pr => pr.foldl (fun acc i => match i with
+    | .w k | .a k => if acc.contains k then acc else acc ++ [k]
+    | _ => acc) acc) [])
+  let tr (i : TIns) : List Instr := match i with
+    | .s t => match indexOf? tags t with | some x => [.spawn x] | none => []
+    | .j t => match indexOf? tags t with | some x => [.join x] | none => []
+    | .w k => match indexOf? cks k with | some x => [.wake x] | none => []
+    | .a k => match indexOf? cks k with | some x => [.wait x] | none => []
+    | .y => [.yield]
+  let trp (p : List TIns) : List Instr := p.foldr (fun i acc => tr i ++ acc) []
+  { tags
+    s0 := { tasks := sc.tasks.toList.map (fun (_, k, p) => { kind := k, prog := trp p })
+            conds := cks.map (fun k => { coop := k % 3 != 2 }) }
+    events := sc.events.toList.map (fun (t, p) => (t, trp p)) }
+
+/-- `log=1000:1,2;5000:3` -/
+def parseLog (s : String) : Option (List (Nat × Nat)) :=
+  if s = "-" then some [] else
+  (s.splitOn ";").foldr (fun grp acc => do
+    let acc ← acc
+    match grp.splitOn ":" with
+    | [t, tags] =>
+      let t ← t.toNat?
+      let tags ← (tags.splitOn ",").mapM String.toNat?
+      pure (tags.map (fun g => (t, g)) ++ acc)
+    | _ => none) (some [])
+
+def showLog (l : List (Nat × Nat)) : String :=
+  " ".intercalate ((l.take 12).map fun (t, g) => s!"{t}:{g}") ++ (if l.length > 12 then " .." else "")
+
+/-- per task: the sequence of observed times -/
+def perTask (tags : List Nat) (l : List (Nat × Nat)) : List (List Nat) :=
+  tags.map fun g => (l.filter (·.2 == g)).map (·.1)
+
+def firstDiff (a b : List (Nat × Nat)) : Nat := Id.run do
+  let mut i := 0
+  for (x, y) in a.zip b do
+    if x != y then return i
+    i := i + 1
+  return i
+
+def tagOf (k : Kind) (o : Phase) : String :=
+  match o, k with
+  | .flush, _ => "F4c"
+  | .rtloop, .loc => "F4d"
+  | _, .loc => "F4b"
+  | _, .rt => "F4"
+
+def runCase (c : Case) : String := Id.run do
+  let h := words c.header
+  let id := (h[1]?).getD "?"
+  let sc := parseScript c.body
+  let op := c.body.length
+  if !wellFormed sc then return s!"ok {id} nt=0 skipped=1"
+  match sc.run with
+  | none => return s!"ok {id} nt=0 norun=1"
+  | some ans =>
+  let r := words ans
+  let P := tokioParams
+  match kvNat r "L", kvNat r "E", kvNat r "C", kv r "res", (kv r "log").bind parseLog with
+  | some l, some e, some cc, some res, some impl =>
+    let cp := compile sc
+    let tagAt (i : Nat) : Nat := (cp.tags[i]?).getD 0
+    let big := measure cp.s0 + 2 * cp.s0.tasks.length + 8
+    let fin := runEvents P cp.events cp.s0
+    let mlogE := fin.log.reverse
+    let mlog := mlogE.map fun x => (x.time, tagAt x.idx)
+    let ideal := idealEvents big cp.events cp.s0
+    if !(ideal.rq.isEmpty && ideal.lq.isEmpty && ideal.dq.isEmpty) then
+      return s!"fail {id} op={op} kind=internal what=ideal-fuel"
+    let ilog := ideal.log.reverse.map fun x => (x.time, tagAt x.idx)
+    let specOK := res == "ok" && perTask cp.tags impl == perTask cp.tags ilog
+    let modelEq := impl == mlog
+    if !specOK then
+      -- does the implementation behave like the single-pass `exec` (the code before the repairs)?  then attribute
+      -- the first late / never-run task of that run to its mechanism
+      let fin := runEvents1 P cp.events cp.s0
+      let mlogE := fin.log.reverse
+      let modelEq := impl == mlogE.map fun x => (x.time, tagAt x.idx)
+      let late := mlogE.find? (fun x => x.time != x.ready)
+      let left : Option Entry := (fin.lq ++ fin.rq).head?
+      let kindOf (i : Nat) : Kind := ((cp.s0.tasks[i]?).map (·.kind)).getD .rt
+      let (tg, who, rdy, obs) : String × Nat × Nat × String := match late, left with
+        | some x, _ => (tagOf (kindOf x.idx) x.origin, tagAt x.idx, x.ready, toString x.time)
+        | none, some en => (tagOf en.kind en.origin, tagAt en.idx, en.ready, "never")
+        | none, none => ("none", 0, 0, "-")
+      if modelEq then
+        return s!"fail {id} op={op} kind=reject tag={tg} task={who} ready={rdy} obs={obs} res={res}"
+      else
+        let d := firstDiff impl mlog
+        return s!"fail {id} op={op} kind=reject tag=unexplained res={res} at={d} model=[{showLog (mlog.drop d)}] impl=[{showLog (impl.drop d)}] spec=[{showLog (ilog.drop (firstDiff impl ilog))}]"
+    -- the measured budgets (probes: 2000 ready tasks, 1000 available messages) must be the model's
+    if l != min P.L 2000 || e != min P.E 2000 || cc != min P.C 1000 then
+      return s!"fail {id} op={op} kind=diverge what=budget model=L{min P.L 2000},E{min P.E 2000},C{min P.C 1000} impl=L{l},E{e},C{cc}"
+    if !modelEq then
+      let d := firstDiff impl mlog
+      return s!"fail {id} op={op} kind=diverge at={d} model=[{showLog (mlog.drop d)}] impl=[{showLog (impl.drop d)}]"
+    -- evidence
+    let obs := mlog.length
+    let ran := (cp.tags.filter fun g => mlog.any (·.2 == g)).length
+    let links := (mlogE.filter fun x => x.origin == .tick || x.origin == .rtloop).length
+    let burst := (mlog.map (·.1)).eraseDups.foldl (fun m t => max m (mlog.filter (·.1 == t)).length) 0
+    let nt := ran ≥ 2 && links ≥ 1
+    return s!"ok {id} nt={if nt then 1 else 0} obs={obs} tasks={ran} links={links} burst={burst} over61={if burst > 61 then 1 else 0}"
+  | _, _, _, _, _ => return s!"fail {id} op={op} kind=badline detail={ans}"
 
 def main (stdin : IO.FS.Stream) : IO Unit := do
   let cases ← readCases stdin
   for c in cases do
-    IO.println s!"fail {(words c.header)[1]?.getD "?"} op=0 kind=unimplemented"
+    IO.println (runCase c)
 
 end Driver.C06
